@@ -173,9 +173,10 @@ def make(P):
     _T = {}
 
     def h(perm: int, pc: int, ip: int, k1: int, dec: int, mid: int, up: bool) -> str:
-        perm_ = fork_int(perm, 0, 3)
+        PERMS, IPS = P.get("perms", [0, 1, 2, 3]), P.get("ips", [0, 1, 2, 3])
+        perm_ = PERMS[fork_int(perm, 0, len(PERMS) - 1)]
         pc_ = fork_int(pc, 0, 4)
-        ip_ = fork_int(ip, 0, 3)
+        ip_ = IPS[fork_int(ip, 0, len(IPS) - 1)]
         only_shard(perm_ + 4 * pc_ + 20 * ip_, P)
         with notrace():
             if ip_ not in _T:
@@ -194,6 +195,8 @@ def make(P):
                 goal("ended-by-abort-or-stop")
             ctx = reharness.context(obs)
             tags = oracle(obs, log, master, state, mid_out, second, cfg, unsub)
+            if P.get("call2_only"):  # C06: only the clause about the next call
+                tags = [t for t in tags if t in ("temporary-subscription-outlived-its-call", "temporary-tokens-left-after-the-call")]
             return ";".join(f"{t}@{ctx}" for t in tags)
 
     def _dry(ip_):
